@@ -5,3 +5,5 @@ package sim
 func queueFlags(w *World) map[string]int { return nil }
 
 func stalledSubscriptions(w *World) []string { return nil }
+
+func directCounts(w *World) map[string]int { return nil }
